@@ -209,3 +209,37 @@ M("c08-filepath-other-filters", "C08", "one-pipeline", (T, "        default_filt
 M("c08-render-unicode-direct", "C08", "one-pipeline", (T, "        return runtime._render(\n            self, self.callable_, args, data, as_unicode=True\n        )", "        return runtime._render(\n            self, self.module.render_body, args, data, as_unicode=True\n        )"))
 M("c08-deftemplate-loses-handler", "C08", "one-pipeline", (T, "        self.error_handler = parent.error_handler\n", ""))
 M("c08-benign-sorted-list", "C08", "silent", (CG, "        for ident in sorted(to_write, key=lambda i: (i in comp_idents, i)):", "        ordered = sorted(to_write, key=lambda i: (i in comp_idents, i))\n        for ident in ordered:"))
+
+# ---------------------------------------------------------------- C02
+M("c02-page-after-local", "C02", "compose", (CG, "                    args = self.compiler.pagetag.filter_args.args + args", "                    args = args + self.compiler.pagetag.filter_args.args"))
+M("c02-defaults-ignore-page-n", "C02", "compose", (CG, '                if self.compiler.default_filters and "n" not in args:', '                if self.compiler.default_filters:'))
+M("c02-defaults-before-page", "C02", "compose", (CG, '                if self.compiler.pagetag:\n                    args = self.compiler.pagetag.filter_args.args + args\n                if self.compiler.default_filters and "n" not in args:\n                    args = self.compiler.default_filters + args', '                if self.compiler.default_filters and "n" not in args:\n                    args = self.compiler.default_filters + args\n                if self.compiler.pagetag:\n                    args = self.compiler.pagetag.filter_args.args + args'))
+M("c02-defaults-for-defs", "C02", "compose", (CG, '        if "n" not in args:\n            if is_expression:\n                if self.compiler.pagetag:', '        if "n" not in args:\n            if True:\n                if self.compiler.pagetag:'))
+M("c02-wrap-reversed", "C02", "wrap-order", (CG, '            target = "%s(%s)" % (e, target)\n        return target', '            target = "%s(%s)" % (target, e)\n        return target'))
+M("c02-text-filter-expression", "C02", "sites", (CG, '                    node.filter_args.args, "__M_buf.getvalue()", False\n                ),', '                    node.filter_args.args, "__M_buf.getvalue()", True\n                ),'))
+M("c02-expression-not-expression", "C02", "sites", (CG, 'node.escapes_code.args, "%s" % node.text, True', 'node.escapes_code.args, "%s" % node.text, False'))
+M("c02-guard-drops-page", "C02", "guard", (CG, "            len(node.escapes)\n            or (\n                self.compiler.pagetag is not None\n                and len(self.compiler.pagetag.filter_args.args)\n            )\n            or len(self.compiler.default_filters)", "            len(node.escapes)\n            or len(self.compiler.default_filters)"))
+M("c02-n-emitted", "C02", "wrap-order", (CG, '            if e == "n":\n                continue\n', ""))
+
+# ---------------------------------------------------------------- C04
+M("c04-copy-shares-data", "C04", "context-isolation", (R, "        c._data = self._data.copy()", "        c._data = self._data"))
+M("c04-kwargs-no-copy", "C04", "context-isolation", (R, "        return self._kwargs.copy()", "        return self._kwargs"))
+M("c04-locals-mutates-self", "C04", "context-isolation", (R, "        c = self._copy()\n        c._data.update(d)\n        return c", "        self._data.update(d)\n        return self"))
+M("c04-render-skips-check", "C04", "reserved-at-render", (R, "    context._set_with_template(template)\n\n    _render_context(", "    context._with_template = template\n\n    _render_context("))
+M("c04-compile-check-skipped", "C04", "reserved-at-compile", (CG, "        if node is not None:\n            node.accept_visitor(self)\n\n        illegal_names", "        if node is None:\n            return\n        node.accept_visitor(self)\n\n        illegal_names"))
+M("c04-getitem-builtins-first", "C04", "lookup-siblings", (R, "        if key in self._data:\n            return self._data[key]\n        else:\n            return builtins.__dict__[key]", "        if key in builtins.__dict__:\n            return builtins.__dict__[key]\n        else:\n            return self._data[key]"))
+M("c04-filter-copy-drops-context", "C04", "lookup-siblings", (CG, "    def visitTextTag(self, node):\n        for ident in node.undeclared_identifiers():\n            if ident != \"context\" and ident not in self.declared.union(", "    def visitTextTag(self, node):\n        for ident in node.undeclared_identifiers():\n            if ident not in self.declared.union("))
+M("c04-strict-undefined-default", "C04", "strict-emission", (CG, '                            "try:",\n                            "%s = context[%r]" % (ident, ident),\n                            "except KeyError:",\n                            "raise NameError(\\"\'%s\' is not defined\\")" % ident,\n                            None,\n                        )', '                            "%s = context.get(%r, UNDEFINED)" % (ident, ident),\n                        )'))
+M("c04-context-before-imports", "C04", "strict-emission", (CG, '                            "%s = _import_ns.get"\n                            "(%r, context.get(%r, UNDEFINED))"', '                            "%s = context.get"\n                            "(%r, _import_ns.get(%r, UNDEFINED))"'))
+M("c04-kwargs-after-builtins", "C04", "context-isolation", (R, "        self._kwargs = data.copy()\n        self._with_template = None", "        self._with_template = None"), (R, "        self.caller_stack = self._data[\"caller\"] = CallerStack()\n", "        self.caller_stack = self._data[\"caller\"] = CallerStack()\n        self._kwargs = data.copy()\n"))
+
+# ---------------------------------------------------------------- C06
+M("c06-block-always-called", "C06", "block-guard", (CG, '            self.printer.writeline(\n                "if \'parent\' not in context._data or "\n                "not hasattr(context._data[\'parent\'], \'%s\'):" % node.funcname\n            )', '            self.printer.writeline("if True:")'))
+M("c06-block-direct-call", "C06", "block-guard", (CG, '"context[\'self\'].%s(%s)" % (node.funcname, ",".join(nameargs))', '"render_%s(context, %s)" % (node.funcname, ",".join(nameargs[1:] or nameargs))'))
+M("c06-duplicate-accepted", "C06", "registration", (CG, "            and (node.is_block or existing.is_block)\n        ):", "            and (node.is_block and existing.is_block and False)\n        ):"))
+M("c06-named-in-call-allowed", "C06", "registration", (CG, "                self.node, (parsetree.CallTag, parsetree.CallNamespaceTag)", "                self.node, (parsetree.CallTag,)"))
+M("c06-getattr-inherits-first", "C06", "getattr-order", (R, "        if key in self.callables:\n            val = self.callables[key]\n        elif self.template.has_def(key):\n            callable_ = self.template._get_def_callable(key)\n            val = functools.partial(callable_, self.context)\n        elif self.inherits:\n            val = getattr(self.inherits, key)\n", "        if key in self.callables:\n            val = self.callables[key]\n        elif self.inherits:\n            val = getattr(self.inherits, key)\n        elif self.template.has_def(key):\n            callable_ = self.template._get_def_callable(key)\n            val = functools.partial(callable_, self.context)\n"))
+M("c06-next-is-self", "C06", "wiring", (R, '    lclcontext = context._locals({"next": ih})', '    lclcontext = context._locals({"next": self_ns})'))
+M("c06-parent-not-published", "C06", "wiring", (R, '    context._data["parent"] = lclcontext._data["local"] = ih.inherits', '    lclcontext._data["local"] = ih.inherits'))
+M("c06-attach-at-self", "C06", "wiring", (R, "    while ih.inherits is not None:\n        ih = ih.inherits\n    lclcontext", "    lclcontext"))
+M("c06-first-inherit", "C06", "wiring", (CG, "            self.write_inherit(inherit[-1])", "            self.write_inherit(inherit[0])"))
